@@ -30,7 +30,8 @@ CLAIMED = {
             "Theorems on the model of the site utility cascade (max(h)-h on the cascade of the summed utilities), any utility sets: Qh_TS <= "
             "total hot-utility duty, Qc_TS <= total cold-utility duty; if the utilities release at every temperature at least the site's net "
             "deficit above it (zonal feasibility summed over the partition) then Qh_TS >= the deficit above ANY temperature = the site's own "
-            "direct-integration target; Qr_TS identity; duties additive over partitions. Tie: the three site records and all zonal DI "
+            "direct-integration target (the hypothesis is reduced to zonal feasibility at the break points, C04, plus isolation); Qr_TS "
+            "identity; duties additive over partitions. Tie: the three site records and all zonal DI "
             "records of every generated site are judged in coqc: additivity value-by-value and utility-by-utility, both bounds, the site DI "
             "record against the exact reference, recovery identity.",
             "As C01; the lower bound theorem is conditional on C04 feasibility (open findings D24/D39 for gliding user utilities)."),
@@ -46,7 +47,8 @@ CLAIMED = {
             "tol: duties >= 0; a positive duty implies a reachable interval with unmet demand; on a pocket-free segment the duties NEVER exceed "
             "Qh/Qc (gliding utilities included); if one utility clear of the grid reaches the extreme row the sum is within tol of the target "
             "(telescoping); for ladders clear of the grid the loop equals the lowest-grade-first closed form duty_k = P_k - P_(k-1); after "
-            "completion some hot and some cold utility always pass the reach test. 'Sums close for EVERY target' rests on the tie: every "
+            "completion some hot and some cold utility always pass the reach test; on the model's own grid every utility end point is a row "
+            "and one isolated extreme utility closes the sum to within tol. 'Sums close for EVERY target' (isolation not derived) rests on the tie: every "
             "DI target and the total-process record of every generated problem are judged in coqc (model = implementation duty by duty, "
             "sum, sign, reach, defaults, per-utility zone sums); stage-level get_utility_targets on synthetic tables as well.",
             "Open finding D24 (gliding cold user utility undersupplied; refuted-theorem witness). The loop iterates by real supply temperature; "
@@ -73,7 +75,9 @@ CLAIMED = {
             "Theorems (closed): emitted composite and grand-composite points are rounded table rows in table order; display rounding error "
             "<= 0.005 (instantiated at the generated DECIMAL_PLACES; breaks if lowered); only flat ends are trimmed, first/last non-flat rows "
             "kept, exactly collinear drops leave the piecewise-linear curve unchanged; segments partition the curve, share end points and "
-            "carry the sign-based classification. The recovery clause for real tables, extents (= Qh, Qc, duties) and 'one graph set per "
+            "carry the sign-based classification; rows added by insertions are exactly collinear with their old neighbours, so cleaning a "
+            "table that went through insertions gives a polyline through every row (exact rational tables). The recovery clause for the "
+            "4-decimal rounded tables, extents (= Qh, Qc, duties) and 'one graph set per "
             "record keyed by its name with the documented graph types' are evaluated in coqc on every record x graph x column of every "
             "generated problem and option combination; constants (loop bounds, rounding, isclose rtol, comparison operators) regenerated.",
             "Open findings D16, D45, D46, D49; graph tables are taken as the reference (their own faithfulness is C05); float rounding not "
@@ -116,7 +120,9 @@ CLAIMED = {
     "C05": ("DESIGN.md 8/C05",
             "Theorems: on the model table, at every row, H_hot = exact heat of hot streams below T, H_cold = Qc + exact heat of cold "
             "streams below T, H_net = H_cold - H_hot = Qh - net deficit above T >= 0 and touches 0; curves span exactly the stream "
-            "duties; heat above + heat below = duty at every temperature (both scales: the theorems are scale-agnostic). "
+            "duties; heat above + heat below = duty at every temperature (both scales: the theorems are scale-agnostic). Composed with "
+            "the insertion model (C08): after ANY history of temperature insertions every row of the table, old or inserted, still carries "
+            "the exact heat contents, and Qh/Qc/Qr read from the end rows are unchanged. "
             "Row-consistency (dT, CP*dT = dH, cumulative vs increment) and the real-table clauses are decided by predicates evaluated "
             "in coqc on the implementation's own tables: stage tables cell-by-cell, get_process_heat_cascade (incl. rows inserted by "
             "the constant-enthalpy projection) with 1e-9 slack, and both tables of every zone after the whole pipeline.",
@@ -175,13 +181,14 @@ CLAIMED = {
             "HX_Eff / HX_NTU with label normalisation, every branch, multipass, the 20-term series, LMTD with its guards and np.isclose): all "
             "16 label forms reach their own branch (finite, exhaustive); NTU(eff(N)) = N and back on the reachable range for the six "
             "closed-form arrangements incl. c = 0 and c = 1 and any pass count; effectiveness in (0,1), strictly increasing in NTU, equal to "
-            "1 - exp(-NTU) at c = 0; parallel flow <= counter flow; secant post-condition; LMTD between min and mean, refusal, symmetry (exact "
+            "1 - exp(-NTU) at c = 0; NEVER above counter flow for every arrangement except the two listed findings (cross-flow one/both "
+            "mixed, shell-and-tube, parallel flow, any pass count; mean-value-theorem proofs, no interval); range (0,1) for all eight "
+            "arrangements incl. the 20-term series; secant post-condition; LMTD between min and mean, refusal, symmetry (exact "
             "when both orders take the same isclose branch). D15 and D34 are refuted theorems with interval-checked witnesses. Tie: 676 "
             "interval proofs |f(x) - python value| <= 1e-9 regenerate on every run, dispatch observed by line tracing, and a numeric sweep "
             "(arrangement x label form x 40 NTU x 21 c x 4 passes) judged in coqc on exact rationals supports the search for failing inputs.",
             "Axioms: the standard library's real-number axioms plus PrimInt63/Uint63 primitives used by Interval in the two refutations. "
-            "eff <= counter-flow for CrFMUmax/CrFMUmin/ShellTube and range/monotonicity of the CrFUU series are carried by the sweep only "
-            "(OPEN). coqchk on C20 exceeds 30 min (re-checks Interval/Flocq/Coquelicot) and is disabled for this property."),
+            "Convergence of the secant inversion and IEEE rounding stay outside the theorems. coqchk on C20 exceeds 30 min (re-checks Interval/Flocq/Coquelicot) and is disabled for this property."),
     "C19": ("DESIGN.md 8/C19",
             "Theorems (closed under the global context): for every constructor argument tuple and every finite setter sequence the "
             "Stream model satisfies CP*span = duty, t_min < t_max, shifted bounds by kind, htr*htc = 1 and kind follows the "
